@@ -413,7 +413,8 @@ func (l *Lexer) readSingleLineString(tok *token.Token) {
 			tok.SetEnd(l.input.InputPosition, l.input.TextPosition)
 			return
 		case runes.QUOTE, runes.CARRIAGERETURN, runes.LINETERMINATOR:
-			if escaped {
+			// only a quote can be escaped, a line break always ends the string
+			if escaped && next == runes.QUOTE {
 				escaped = !escaped
 				continue
 			}
